@@ -292,6 +292,10 @@ func (c *Contract) addClause(kw, rest, path string, line int) error {
 		}
 		c.Requires = append(c.Requires, cl)
 	case "ensures":
+		if strings.Contains(rest, "callres(") || strings.Contains(rest, "callarg(") || strings.Contains(rest, "called(") {
+			// postconditions are assumed by callers, where the callee's calls do not exist
+			return fmt.Errorf("callres/callarg/called are local to the function body: use an exit clause, not ensures")
+		}
 		cl, err := mkClause(rest, path, line, true)
 		if err != nil {
 			return err
